@@ -5,6 +5,7 @@ import (
 	"go/types"
 	"math/big"
 	"sort"
+	"strconv"
 	"strings"
 
 	"golang.org/x/tools/go/ssa"
@@ -102,8 +103,7 @@ func (e *Encoder) callCommon(instr ssa.Instruction, cm *ssa.CallCommon, res ssa.
 		v := e.freshVal("dcall", resT)
 		e.assumeWT(v, pc, st)
 		// contracts can name the result of the k-th dynamic call as $callk
-		e.params[fmt.Sprintf("$call%d", e.counts["$dyn"])] = v
-		e.counts["$dyn"]++
+		e.nameValue("$call", v, pc)
 		return v
 	}
 	ssn := e.siteName("call", callee.Name())
@@ -170,6 +170,31 @@ func (e *Encoder) ordinal(key string) int {
 	return k
 }
 
+// namedKnown: $name<k> (or $name<k>_<i>) names a value some instruction of this function produces, whether or
+// not that instruction has been encoded yet. In the first pass (no record) every $-name counts as known.
+func (e *Encoder) namedKnown(name string) bool {
+	if e.ordSeed == nil {
+		return true
+	}
+	for key, lst := range e.ordSeed {
+		if !strings.HasPrefix(key, "$name ") {
+			continue
+		}
+		base := key[len("$name "):]
+		if !strings.HasPrefix(name, base) {
+			continue
+		}
+		rest := name[len(base):]
+		if i := strings.IndexByte(rest, '_'); i >= 0 {
+			rest = rest[:i]
+		}
+		if k, err := strconv.Atoi(rest); err == nil && k >= 0 && k < len(lst) {
+			return true
+		}
+	}
+	return false
+}
+
 // sortedOrdLog returns the recorded instruction lists sorted by source position.
 func (e *Encoder) sortedOrdLog() map[string][]ssa.Instruction {
 	out := map[string][]ssa.Instruction{}
@@ -191,7 +216,7 @@ func (e *Encoder) sortedOrdLog() map[string][]ssa.Instruction {
 func (e *Encoder) applyContract(fc *FuncContract, callee *ssa.Function, args []Val, bindings []Val, resT types.Type, st *State, pc string, sname string) Val {
 	c := e.c
 	pre := st.clone()
-	env := &Env{c: c, pkg: callee.Pkg.Pkg, vars: map[string]Val{}, mem: pre.memFn(c), freshBase: pre.ctr, wt: e.assumeCellWT}
+	env := &Env{c: c, pkg: fnTypesPkg(callee), vars: map[string]Val{}, mem: pre.memFn(c), freshBase: pre.ctr, wt: e.assumeCellWT}
 	names := paramNames(callee, fc)
 	for i, par := range callee.Params {
 		if i >= len(args) {
@@ -254,7 +279,7 @@ func (e *Encoder) applyContract(fc *FuncContract, callee *ssa.Function, args []V
 	}
 	result := e.freshVal("r_"+sanitize(callee.Name()), resT)
 	e.assumeWT(result, pc, st)
-	post := &Env{c: c, pkg: callee.Pkg.Pkg, vars: map[string]Val{}, mem: st.memFn(c), old: env, freshBase: pre.ctr, wt: e.assumeCellWT}
+	post := &Env{c: c, pkg: fnTypesPkg(callee), vars: map[string]Val{}, mem: st.memFn(c), old: env, freshBase: pre.ctr, wt: e.assumeCellWT}
 	for k, v := range env.vars {
 		post.vars[k] = v
 	}
